@@ -86,3 +86,45 @@ impl Drop for Worker {
         let _ = self.child.wait();
     }
 }
+
+/// run many independent jobs on `n` fresh workers (used by deterministic enumerations that
+/// would be too slow on the single worker of a shard)
+pub fn par_exec(jobs: &[Job], n: usize) -> Result<Vec<Reply>, HarnessError> {
+    let next = std::sync::atomic::AtomicUsize::new(0);
+    let out: std::sync::Mutex<Vec<Option<Reply>>> = std::sync::Mutex::new(vec![None; jobs.len()]);
+    let err: std::sync::Mutex<Option<String>> = std::sync::Mutex::new(None);
+    std::thread::scope(|s| {
+        for _ in 0..n.max(1) {
+            s.spawn(|| {
+                let mut w = match Worker::spawn() {
+                    Ok(w) => w,
+                    Err(e) => {
+                        *err.lock().unwrap() = Some(e.0);
+                        return;
+                    }
+                };
+                loop {
+                    let i = next.fetch_add(1, std::sync::atomic::Ordering::SeqCst);
+                    if i >= jobs.len() || err.lock().unwrap().is_some() {
+                        break;
+                    }
+                    match w.exec(&jobs[i]) {
+                        Ok(r) => out.lock().unwrap()[i] = Some(r),
+                        Err(e) => {
+                            *err.lock().unwrap() = Some(e.0);
+                            break;
+                        }
+                    }
+                }
+            });
+        }
+    });
+    if let Some(e) = err.into_inner().unwrap() {
+        return Err(HarnessError(e));
+    }
+    out.into_inner()
+        .unwrap()
+        .into_iter()
+        .map(|r| r.ok_or_else(|| HarnessError("job not executed".into())))
+        .collect()
+}
